@@ -75,7 +75,7 @@ PROPS['C14'] = {
     'assumptions': [
         'a sequential writer interrupted at byte N leaves the N-byte prefix',
         'time flags are compared with the same reader\'s flags for the complete file; data with the producer\'s ground truth',
-        'bpch: both bpch readers raise on every file under the installed numpy, so bpch cuts are not generated (raising is an allowed outcome)',
+        'bpch files are read with the memory-mapped bpch1 reader; the side-car tables sit next to the torn file',
         'auto-detection of torn files is not exercised (which reader should claim a fragment is not stated)'],
 }
 
@@ -108,7 +108,7 @@ PROPS['C07'] = {
 _CAMX_RULE = ('one run = 1-4 write cycles in one process over the CAMx binary '
               'formats (gridded with every NAME variant, boundary, temperature, '
               'wind, height/pressure, humidity, vertical diffusivity, generic '
-              '3-D): an in-memory CAMx-convention source is built inside the '
+              '3-D, cloud/rain, land use): an in-memory CAMx-convention source is built inside the '
               'fixed envelope (1-4 species with names up to 10 characters, nx, '
               'ny 1-5, nz 1-3, 1-4 hourly steps from dates 1970-2069 incl. day, '
               'year, leap-day and century roll-overs, float32 payload with '
@@ -131,12 +131,12 @@ PROPS['C08'] = {
                                           'peer program: reference CAMx codec']},
     'assumptions': [
         'a byte copy of a local file equals what survives a process kill at that instant',
-        'sources carry ETFLAG like files presented by the readers; land-use and cloud/rain are not covered yet',
+        'sources carry ETFLAG like files presented by the readers; the point-source format is not covered',
         'input variety is workload inside a fixed envelope, not the deciding dimension'],
 }
 PROPS['C09'] = dict(PROPS['C08'])
 PROPS['C09']['assumptions'] = [
-    'the reference codec is written from the CAMx User\'s Guide record lists and validated byte-for-byte (decode, re-encode) against the seven sample files of the repository',
+    'the reference codec is written from the CAMx User\'s Guide record lists and validated byte-for-byte (decode, re-encode) against the nine CAMx sample files of the repository',
     'meteorological files carry the time of day as HHMM',
     'same runs and schedule space as C08; the simulator decides which image is judged (the one at acknowledgement), the differential oracle decides the rest']
 
@@ -263,7 +263,7 @@ MANIFEST_TEXT['C14'] = {
     'text': ('Crash-point enumeration: for generated files of every CAMx '
              'binary format with a memmap reader (gridded, boundary, '
              'temperature, wind, generic 3-D incl. humidity / vertical '
-             'diffusivity, height/pressure) the fault "producer stopped at '
+             'diffusivity, height/pressure, cloud/rain, land use) and of bpch the fault "producer stopped at '
              'byte N" is injected at every offset near every structural '
              'boundary plus a seeded interior sample (quick) or at every '
              'offset of the file (thorough, exhaustive per file); the real '
@@ -315,8 +315,8 @@ MANIFEST_TEXT['C08'] = {
              'Evidence, not proof.'),
     'design_ref': 'DESIGN.md section 5 (C08)',
     'note': ('Trusted: scenario-built in-memory sources, byte copy = crash '
-             'image. Land-use and cloud/rain formats are not covered. One '
-             'recorded known finding (wind on a one-cell grid).'),
+             'image. The point-source format is not covered. One recorded '
+             'known finding (wind on a one-cell grid).'),
     'technique': 'deterministic simulation: crash-at-acknowledgement image + handle schedule + history between write and re-write; round-trip and byte-identity oracles',
 }
 MANIFEST_TEXT['C09'] = {
@@ -331,8 +331,8 @@ MANIFEST_TEXT['C09'] = {
              'judged and the peer, the differential oracle decides the rest.'),
     'design_ref': 'DESIGN.md section 5 (C09)',
     'note': ('Trusted: the reference codec (validated byte-for-byte against '
-             'the 7 sample files). bpch, land-use, cloud/rain and point-source '
-             'formats are not covered.'),
+             'the 9 sample files). bpch is covered under C18/C14; the '
+             'point-source format is not covered.'),
     'technique': 'deterministic simulation: crash-at-acknowledgement images judged by an independent reference codec (stub peer), both directions',
 }
 
